@@ -394,6 +394,12 @@ func (s *Session) tryReplay(u *Unit, o *Obligation) *ReplayResult {
 	rr.Cmd = cmd
 	rr.TestOutput = trunc(out, 6000)
 	rr.Reproduced = failed && strings.Contains(out, "GOCV-REPRODUCED")
+	if !rr.Reproduced && len(corpusRe.FindAllStringSubmatch(string(tb), -1)) > 0 {
+		// the solver's witness concerns an abstraction (e.g. an unknown helper); try the template's boundary corpus
+		if cr := s.corpusReplay(u, o, string(tb), "the model's input did not reproduce: "+desc); cr.Reproduced {
+			return cr
+		}
+	}
 	return rr
 }
 
